@@ -8,6 +8,7 @@ package syncx
 
 import (
 	"fmt"
+	"runtime"
 	"sync"
 	"sync/atomic"
 	"time"
@@ -198,7 +199,15 @@ func c18RunLimit(m *vk.M, idx int, sc c18LimScn) bool {
 		earlyT    int64
 		holdErr   int32 // balanced: Return failed although the caller held a borrow
 		ntimeouts int64
+		inReturn  int32 // clients currently inside Return (which must never block)
 	)
+	// Return of the harness's own goroutine, guarded: a Return that does not come back is
+	// reported by c18ReturnBlocked instead of hanging the monitor
+	safeReturn := func() (error, bool) {
+		var err error
+		ok := vk.Within(c18Watchdog, func() { err = l.Return() })
+		return err, ok
+	}
 	retOut := func(err error) c18LimOut {
 		switch err {
 		case nil:
@@ -237,7 +246,9 @@ func c18RunLimit(m *vk.M, idx int, sc c18LimScn) bool {
 					atomic.AddInt32(&gauge, -1)
 				}
 				call := vk.Seq()
+				atomic.AddInt32(&inReturn, 1)
 				err := l.Return()
+				atomic.AddInt32(&inReturn, -1)
 				ret := vk.Seq()
 				out := retOut(err)
 				lg.add(ci, c18LimIn{Op: c18OpReturn}, call, out, ret)
@@ -366,7 +377,11 @@ loop:
 			}
 			if got || !sc.Balanced {
 				call := vk.Seq()
-				err := l.Return()
+				err, back := safeReturn()
+				if !back {
+					c18ReturnBlocked(m, idx, name, desc, "the harness's drain Return")
+					return false
+				}
 				ret := vk.Seq()
 				dr.add(drID, c18LimIn{Op: c18OpReturn}, call, retOut(err), ret)
 			}
@@ -374,6 +389,10 @@ loop:
 		lastProg = p
 		timer.Reset(poll)
 		if time.Now().After(deadline) {
+			if atomic.LoadInt32(&inReturn) > 0 {
+				c18ReturnBlocked(m, idx, name, desc, fmt.Sprintf("%d client(s)", atomic.LoadInt32(&inReturn)))
+				return false
+			}
 			m.Inconclusive("case %d (%s): clients still parked after %v and %d drain operations", idx, name, c18Watchdog, drains)
 			return false
 		}
@@ -396,7 +415,11 @@ loop:
 	}
 	for i := 0; i < tryN+1; i++ {
 		call := vk.Seq()
-		err := l.Return()
+		err, back := safeReturn()
+		if !back {
+			c18ReturnBlocked(m, idx, name, desc, "the harness's epilogue Return")
+			return false
+		}
 		ret := vk.Seq()
 		out := retOut(err)
 		if out == c18OutOK {
@@ -477,4 +500,158 @@ func (i c18LimIn) String0() string {
 	default:
 		return "return"
 	}
+}
+
+// c18ReturnBlocked classifies a Return that has not come back after the watchdog. Return
+// is total in the sequential specification (nil or ErrLimitReturn) and never blocks on a
+// correct tree, so a goroutine that the dump shows parked inside Limit.Return is a
+// violation; without that frame in the dump the observation stays inconclusive.
+func c18ReturnBlocked(m *vk.M, idx int, name, desc, who string) {
+	gs := vk.GoroutinesIn("syncx.Limit.Return")
+	if len(gs) == 0 {
+		m.Inconclusive("case %d (%s): %s did not come back from Return within %v but no goroutine is parked in Limit.Return", idx, name, who, c18Watchdog)
+		return
+	}
+	g := gs[0]
+	if len(g) > 700 {
+		g = g[:700]
+	}
+	m.Violate("C18:"+name+":return-blocked", desc, "%s has been inside Return for more than %v; %d goroutine(s) parked in Limit.Return (a Return without an outstanding borrow must report ErrLimitReturn, not wait for somebody else's borrow):\n%s", who, c18Watchdog, len(gs), g)
+}
+
+// ---------------------------------------------------------------- concurrent double Returns
+
+// c18DblScn: per round the harness borrows B slots (all of them succeed: the limit is
+// idle), then Workers goroutines leave a spinning barrier together and each calls Return
+// once. The rounds are separated by quiescence, so exactly B of the Returns may succeed
+// and the others must report ErrLimitReturn; none may block.
+type c18DblScn struct {
+	N       int  `json:"n"`
+	Timed   bool `json:"timed,omitempty"`
+	Workers int  `json:"workers"`
+	Rounds  int  `json:"rounds"`
+	Procs   int  `json:"procs"`
+}
+
+func c18GenDbl(r interface{ Intn(int) int }) c18DblScn {
+	sc := c18DblScn{N: 1 + r.Intn(3), Timed: r.Intn(3) == 0, Workers: 2 + r.Intn(5), Rounds: 100 + r.Intn(200)}
+	if r.Intn(4) == 0 {
+		sc.Rounds = 4 + r.Intn(5) // short enough for the linearizability checker
+	}
+	return sc
+}
+
+func c18RunDbl(m *vk.M, idx int, sc c18DblScn) bool {
+	name := "limit"
+	var l c18Limiter
+	if sc.Timed {
+		name = "timeoutlimit"
+		l = NewTimeoutLimit(sc.N)
+	} else {
+		l = NewLimit(sc.N)
+	}
+	desc := fmt.Sprintf("case=%d;%s-double-return;%s", idx, name, vk.JSON(sc))
+	m.Current(desc)
+	W := int32(sc.Workers)
+	arrive := make([]int32, sc.Rounds)
+	finished := make([]int32, sc.Rounds)
+	okCnt := make([]int32, sc.Rounds)
+	other := int32(0)
+	borrowed := make([]int32, sc.Rounds)
+	proceed := make([]int32, sc.Rounds) // set by the harness once the round's borrows are done
+	logs := make([]*c18OpLog, sc.Workers+1)
+	var wg sync.WaitGroup
+	var abort int32
+	for w := 0; w < sc.Workers; w++ {
+		logs[w] = &c18OpLog{}
+		wg.Add(1)
+		go func(w int) {
+			defer wg.Done()
+			for r := 0; r < sc.Rounds; r++ {
+				for i := 0; atomic.LoadInt32(&proceed[r]) == 0; i++ {
+					if atomic.LoadInt32(&abort) != 0 {
+						return
+					}
+					if i%32 == 31 {
+						runtime.Gosched()
+					}
+				}
+				c18SpinBarrier(&arrive[r], W)
+				call := vk.Seq()
+				err := l.Return()
+				ret := vk.Seq()
+				out := c18OutOther
+				switch err {
+				case nil:
+					out = c18OutOK
+					atomic.AddInt32(&okCnt[r], 1)
+				case ErrLimitReturn:
+					out = c18OutNo
+				default:
+					atomic.AddInt32(&other, 1)
+				}
+				logs[w].add(w, c18LimIn{Op: c18OpReturn}, call, out, ret)
+				atomic.AddInt32(&finished[r], 1)
+			}
+		}(w)
+	}
+	hl := &c18OpLog{}
+	logs[sc.Workers] = hl
+	rnd := uint32(idx)*2654435761 + 12345
+	var nok, nrefused int64
+	for r := 0; r < sc.Rounds; r++ {
+		rnd = rnd*1664525 + 1013904223
+		b := 1 + int(rnd>>16)%sc.N // borrows of this round: 1..n, fewer than the returners
+		if b >= sc.Workers {
+			b = sc.Workers - 1
+		}
+		for i := 0; i < b; i++ {
+			call := vk.Seq()
+			ok := l.TryBorrow()
+			ret := vk.Seq()
+			out := c18OutNo
+			if ok {
+				out = c18OutOK
+				borrowed[r]++
+			}
+			hl.add(sc.Workers, c18LimIn{Op: c18OpTry}, call, out, ret)
+		}
+		atomic.StoreInt32(&proceed[r], 1)
+		if !vk.WaitUntil(c18Watchdog, func() bool { return atomic.LoadInt32(&finished[r]) == W }) {
+			atomic.StoreInt32(&abort, 1)
+			c18ReturnBlocked(m, idx, name, desc, fmt.Sprintf("round %d: %d of %d concurrent Return calls (for %d outstanding borrows)", r, W-atomic.LoadInt32(&finished[r]), W, borrowed[r]))
+			return false
+		}
+		got := atomic.LoadInt32(&okCnt[r])
+		nok += int64(got)
+		nrefused += int64(W - got)
+		if got != borrowed[r] {
+			atomic.StoreInt32(&abort, 1)
+			m.Violate("C18:"+name+":double-return-accepted", desc, "round %d: %d borrows were outstanding (limit %d, nothing else in flight) and %d goroutines called Return concurrently: %d of them succeeded, want exactly %d (the others return without having borrowed and must get ErrLimitReturn)",
+				r, borrowed[r], sc.N, W, got, borrowed[r])
+			c18Join(&wg)
+			return true
+		}
+	}
+	if !c18Join(&wg) {
+		m.Inconclusive("case %d (%s double return): workers did not finish", idx, name)
+		return false
+	}
+	if atomic.LoadInt32(&other) != 0 {
+		m.Violate("C18:"+name+":unexpected-error", desc, "Return returned an error that is neither nil nor ErrLimitReturn")
+		return true
+	}
+	ops := c18Merge(logs)
+	if len(ops) <= 70 {
+		c18Linearizable(m, "C18:"+name+":not-linearizable", desc, c18LimitModel(sc.N), ops)
+	}
+	m.Count(name+"_double_return_rounds", int64(sc.Rounds))
+	m.Count(name+"_concurrent_returns_succeeded", nok)
+	m.Count(name+"_concurrent_returns_refused", nrefused)
+	m.Case(fmt.Sprintf("%sdbl%d/%d/%d/%d", name, sc.N, sc.Workers, sc.Rounds, nok), nrefused > 0)
+	if m.WantSample() && idx%17 == 1 {
+		m.Sample(map[string]any{"kind": name + "-concurrent-double-return", "n": sc.N, "workers": sc.Workers, "rounds": sc.Rounds, "gomaxprocs": sc.Procs,
+			"returns_succeeded": nok, "returns_refused_ErrLimitReturn": nrefused})
+	}
+	return true
 }
